@@ -7,5 +7,5 @@ for f in sorted(glob.glob(sys.argv[1])):
     for p in (r.get('panics') or [])[:1]: print(p[:1500])
     print(' LIVE:', '\n   '.join(r.get('live') or []))
     n=int(sys.argv[2]) if len(sys.argv)>2 else 15
-    print('\n'.join((r.get('log_tail') or [])[-n:]))
+    print("\n".join((r.get("log_tail") or [])[-n:]) if n>0 else "")
     print(' RLOG:', '\n   '.join((r.get('router_log') or [])[-8:]))
